@@ -41,6 +41,7 @@ else:
 Unsupported, body_no_doc = py2lean.Unsupported, py2lean.body_no_doc
 
 LT = "(Gen.priEntryLt plt)"
+BINDERS = "{π : Type} (H : HeapLib (Entry π)) (plt : π → π → Bool)"
 FIELDS = {"_sequence": ("seq", "nat"), "_pq": ("pq", ("list", "entry"))}
 ENTRY_FIELDS = {"priority": ("pri", "prio"), "sequence": ("seq", "nat"), "obj": ("obj", "obj")}
 EXCS = {"IndexError": ".indexError", "ValueError": ".valueError"}
@@ -61,20 +62,18 @@ class Leaf(Node):
 
 
 class Final(Node):
-    """the method's final result: `(.ok v, s)` / `(.error e, s)`; inside a loop body `.ret (…)`.
-    `val` is resolved after the whole method is translated (Optional return types)."""
+    """a leaf that leaves the current definition with its final result; inside `depth` nested
+    loop bodies it is wrapped in as many `.ret`.  The text is rendered after the whole method is
+    translated (Optional return types are only known then)."""
 
-    def __init__(self, fn, kind, val, state, depth):
-        self.fn, self.kind, self.val, self.state, self.depth = fn, kind, val, state, depth
+    def __init__(self, fn, depth, render, kind="ret", val=None):
+        self.fn, self.depth, self.render, self.kind, self.val = fn, depth, render, kind, val
         fn.finals.append(self)
 
     def lines(self, ind):
-        if self.kind == "raise":
-            t = f"(.error {self.val}, {self.state})"
-        else:
-            t = f"(.ok {self.fn.render_ret(self.val)}, {self.state})"
-        if self.depth:
-            t = f".ret {t}"
+        t = self.render()
+        for _ in range(self.depth):
+            t = f".ret {atom(t)}"
         return [ind + t]
 
 
@@ -83,7 +82,8 @@ class Let(Node):
         self.name, self.ty, self.val, self.body = name, ty, val, body
 
     def lines(self, ind):
-        t = f" : {self.ty}" if self.ty else ""
+        ty = self.ty() if callable(self.ty) else self.ty
+        t = f" : {ty}" if ty else ""
         return [f"{ind}let {self.name}{t} := {self.val}"] + self.body.lines(ind)
 
 
@@ -205,6 +205,7 @@ class Env:
         self.iterating = []    # places being iterated by enclosing loops
         self.dirty = False     # an iterated place was modified on this path
         self.dead = set()      # local lists that were moved into a field
+        self.gen = None        # generators: (remaining next() calls, yielded so far) as Lean names
 
     def copy(self):
         e = Env()
@@ -215,6 +216,7 @@ class Env:
         e.iterating = list(self.iterating)
         e.dirty = self.dirty
         e.dead = set(self.dead)
+        e.gen = self.gen
         return e
 
 
@@ -243,6 +245,10 @@ class Fn:
         self.ret_ty = None
         self.is_gen = any(isinstance(n, (ast.Yield, ast.YieldFrom)) for n in ast.walk(fn))
         self.version = 0
+        self.aux = []             # auxiliary definitions (finally blocks, while loops): (header, node)
+        self.naux = 0
+        self.yield_ty = None
+        self.lean_name = LEAN_NAMES.get(fn.name, fn.name)
 
     # -- names
     def fresh(self, base):
@@ -302,7 +308,10 @@ class Fn:
 
     # -- results
     def final(self, kind, val, env):
-        return Final(self, kind, val, env.objs[self.selfname], self.depth)
+        st = env.objs[self.selfname]
+        if kind == "raise":
+            return Final(self, self.depth, lambda: f"(.error {val}, {st})", "raise", val)
+        return Final(self, self.depth, lambda: f"(.ok {self.render_ret(val)}, {st})", "ret", val)
 
     def render_ret(self, val):
         if self.ret_ty is not None and isinstance(self.ret_ty, tuple) and self.ret_ty[0] == "opt":
@@ -1055,7 +1064,7 @@ class Fn:
                 out.append(("var", v))
         return out
 
-    def pack(self, items, env):
+    def pack(self, items, env, sep=False):
         parts = []
         for kind, n in items:
             if kind == "obj":
@@ -1064,21 +1073,31 @@ class Fn:
                 parts.append(env.lists[n][0])
             elif kind == "ix":
                 parts.append(n)
+            elif kind == "gen_n":
+                parts.append(env.gen[0])
+            elif kind == "gen_out":
+                parts.append(env.gen[1])
             else:
                 parts.append(env.vars[n].lean)
+        if sep:
+            return "".join(" " + atom(x) for x in parts)
         return parts[0] if len(parts) == 1 else "(" + ", ".join(parts) + ")"
 
-    def pack_ty(self, items, env):
+    def pack_ty(self, items, env, as_list=False):
         parts = []
         for kind, n in items:
             if kind == "obj":
                 parts.append("PQ π")
             elif kind == "list":
                 parts.append(lean_ty(("list", env.lists[n][1])))
-            elif kind == "ix":
+            elif kind in ("ix", "gen_n"):
                 parts.append("Nat")
+            elif kind == "gen_out":
+                parts.append("List (⟪Y⟫)")
             else:
                 parts.append(lean_ty(env.vars[n].ty))
+        if as_list:
+            return parts
         return parts[0] if len(parts) == 1 else "(" + " × ".join(parts) + ")"
 
     def unpack(self, items, env, acc=None, binds=None):
@@ -1095,6 +1114,12 @@ class Fn:
                 env.lists[nme] = (nm, env.lists[nme][1])
             elif kind == "ix":
                 nm = nme
+            elif kind == "gen_n":
+                nm = self.fresh("n")
+                env.gen = (nm, env.gen[1])
+            elif kind == "gen_out":
+                nm = self.fresh("out")
+                env.gen = (env.gen[0], nm)
             else:
                 nm = self.fresh(nme + "_")
                 env.vars[nme] = env.vars[nme].clone(lean=nm)
@@ -1102,6 +1127,7 @@ class Fn:
             if binds is not None:
                 proj = "" if n == 1 else ".2" * i + (".1" if i < n - 1 else "")
                 binds.append((nm, f"{acc}{proj}"))
+        self.last_names = names
         pat = names[0] if n == 1 else "(" + ", ".join(names) + ")"
         return pat, env
 
@@ -1156,20 +1182,10 @@ class Fn:
         def b_brk(env2):
             brk_envs.append(env2)
             return Leaf(f".brk {atom(self.pack(brk_items, env2))}")
+        # `return` / `raise` in the body leave through the enclosing context; the leaves they
+        # produce are created while `depth` is one higher, i.e. wrapped in one more `.ret`
         self.depth += 1
-        depth = self.depth
-
-        def b_ret(v, env2):
-            return Final(self, "ret", v, env2.objs[self.selfname], depth)
-
-        def b_rais(exc, env2):
-            return Final(self, "raise", Val(exc, "exc").lean, env2.objs[self.selfname], depth)
-        if ctx.yld is not None:
-            raise Unsupported("yield inside a for loop")
-        bctx = Ctx(b_end, b_ret if self.depth == 1 and not self.in_try else None, None, b_brk, b_end)
-        if bctx.ret is None:
-            raise Unsupported("nested loops / loops inside try are not supported")
-        bctx.rais = b_rais
+        bctx = Ctx(b_end, ctx.ret, ctx.rais, b_brk, b_end, None)
         body = self.blk(s.body, benv, bctx)
         self.depth -= 1
         self.cur_rais = ctx.rais
@@ -1200,16 +1216,141 @@ class Fn:
             arms.append((".brk e", Leaf("nomatch e")))
         return Match(loop, arms)
 
-    in_try = False
+    def frame(self, env):
+        """everything a sub-definition (finally block, while loop) can see: objects, live local
+        lists, non-entry locals (entry locals are references into lists and stay behind)"""
+        items = [("obj", o) for o in env.objs]
+        items += [("list", l) for l in env.lists if l not in env.dead]
+        items += [("var", v) for v in env.vars if env.vars[v].ty != "entry"]
+        if env.gen:
+            items += [("gen_n", None), ("gen_out", None)]
+        return items
 
-    def while_stmt(self, s, env, ctx):
-        raise Unsupported("while loop outside a generator")
+    def enter_frame(self, items, env):
+        """environment of a sub-definition whose parameters are the frame; -> (binder text, env)"""
+        tys = self.pack_ty(items, env, as_list=True)
+        _, fenv = self.unpack(items, env)
+        names = self.last_names
+        for n in list(fenv.vars):
+            if fenv.vars[n].ty == "entry":
+                del fenv.vars[n]
+        fenv.iterating, fenv.dirty = [], False
+        for pl in [("local", l) for l in fenv.lists] + [("field", o, "_pq") for o in fenv.objs]:
+            fenv.ver[pl] = self.newver()
+        return "".join(f" ({n} : {t})" for n, t in zip(names, tys)), fenv
+
+    def after_frame(self, items, env):
+        """environment after a sub-definition returned the frame; -> (pattern, env)"""
+        for kind, n in items:
+            if kind == "list" and n in env.dead:
+                raise Unsupported(f"list {n} is needed here but was stored into a field")
+        pat, env2 = self.unpack(items, env)
+        for pl in [("local", l) for l in env2.lists] + [("field", o, "_pq") for o in env2.objs]:
+            env2.ver[pl] = self.newver()
+        return pat, env2
 
     def try_stmt(self, s, env, ctx):
-        raise Unsupported("try statement outside a generator")
+        if s.handlers or s.orelse or not s.finalbody:
+            raise Unsupported("try statement other than try/finally")
+        items = [i for i in self.frame(env) if not i[0].startswith("gen_")]   # a finally block cannot yield
+        self.naux += 1
+        name = f"{self.lean_name}.fin{self.naux}"
+        binders, fenv = self.enter_frame(items, env)
+        fty = self.pack_ty(items, env)
+        saved, self.depth = self.depth, 0
+
+        fin_dead = set()
+
+        def f_end(e):
+            fin_dead.update(e.dead)       # a local list stored into a field is that field from now on
+            return Final(self, self.depth, lambda: f"(.ok (), {self.pack(items, e)})", "aux")
+
+        def f_rais(exc, e):
+            return Final(self, self.depth, lambda: f"(.error {exc}, {self.pack(items, e)})", "aux")
+
+        def f_no(*a):
+            raise Unsupported("return / break / continue / yield inside a finally block")
+        saved_rais = self.cur_rais
+        node = self.blk(s.finalbody, fenv, Ctx(f_end, f_no, f_rais, f_no, f_no, None))
+        self.depth = saved
+        self.cur_rais = saved_rais
+        self.aux.append((f"/-- the `finally:` block at src/asynkit/tools.py:{s.finalbody[0].lineno - 1} -/\n"
+                         f"def {name} {BINDERS}{binders} : Except Exc Unit × {fty} :=", node))
+
+        def run_fin(env2, then):
+            for kind, n in items:
+                if kind == "list" and n in env2.dead:
+                    raise Unsupported(f"list {n} is needed by the finally block but was stored into a field")
+            args = self.pack(items, env2, sep=True)
+            pat, env3 = self.after_frame(items, env2)
+            env3.dead |= fin_dead
+            exc = self.fresh("exc")
+            return Match(f"{name} H plt{args}", [(f"(.error {exc}, {pat})", ctx.rais(exc, env3)),
+                                                  (f"(.ok _, {pat})", then(env3))])
+        ctx2 = ctx.with_(end=lambda e: run_fin(e, ctx.end),
+                         ret=lambda v, e: run_fin(e, lambda e3: ctx.ret(v, e3)),
+                         rais=lambda exc, e: run_fin(e, lambda e3: ctx.rais(exc, e3)),
+                         brk=(lambda e: run_fin(e, ctx.brk)) if ctx.brk else None,
+                         cont=(lambda e: run_fin(e, ctx.cont)) if ctx.cont else None)
+        return self.blk(s.body, env, ctx2)
+
+    def while_stmt(self, s, env, ctx):
+        """`while c: body` in a generator: a recursive auxiliary definition; Lean accepts it only if
+        every way round the loop passes a `yield` (structural recursion on the remaining `next()`s)"""
+        if ctx.yld is None or env.gen is None:
+            raise Unsupported("while loop outside a generator")
+        if s.orelse:
+            raise Unsupported("while … else")
+        if self.depth != 0:
+            raise Unsupported("while loop nested in another loop")
+        items = self.frame(env)
+        self.naux += 1
+        name = f"{self.lean_name}.loop{self.naux}"
+        binders, benv = self.enter_frame(items, env)
+        fty = self.pack_ty(items, env)
+        self.depth = 1
+        saved_rais = self.cur_rais
+
+        def b_next(e):
+            return Leaf(f"{name} H plt{self.pack(items, e, sep=True)}")
+
+        def b_exit(e):
+            return Leaf(f".next {atom(self.pack(items, e))}")
+        bctx = Ctx(b_next, ctx.ret, ctx.rais, b_exit, b_next, ctx.yld)
+        self.cur_rais = ctx.rais
+        node = self.ev(s.test, benv, lambda c, e2: If(self.truth(c), self.blk(s.body, e2.copy(), bctx), b_exit(e2)))
+        self.depth = 0
+        self.cur_rais = saved_rais
+        self.aux.append((f"/-- the `while` loop at src/asynkit/tools.py:{s.lineno} -/\n"
+                         f"def {name} {BINDERS}{binders} : PyRt.Ctl {fty} Empty (⟪R⟫) :=", node))
+        args = self.pack(items, env, sep=True)
+        pat, env3 = self.after_frame(items, env)
+        return Match(f"{name} H plt{args}", [(".ret r", Leaf("r")), (f".next {pat}", ctx.end(env3)),
+                                              (".brk e", Leaf("nomatch e"))])
 
     def yield_stmt(self, y, env, ctx):
-        raise Unsupported("yield outside a generator")
+        if ctx.yld is None or env.gen is None:
+            raise Unsupported("yield here (inside a for loop / finally block / plain method)")
+        if y.value is None:
+            raise Unsupported("bare yield")
+
+        def ky(v, env2):
+            if v.ty == "entry" or v.ty == "none" or (isinstance(v.ty, tuple) and v.ty[0] == "list"):
+                raise Unsupported(f"yield of a {v.ty}")
+            if self.yield_ty is None:
+                self.yield_ty = v.ty
+            elif self.yield_ty != v.ty:
+                raise Unsupported("yields of different types")
+            n, out = env2.gen
+            out2, n2 = self.fresh("out"), self.fresh("n")
+            e_exit = env2.copy()
+            e_exit.gen = (n, out2)
+            e_go = env2.copy()
+            e_go.gen = (n2, out2)
+            # the consumer either calls next() again or close()s: GeneratorExit is raised here
+            return Let(out2, "List (⟪Y⟫)", f"{out} ++ [{v.lean}]",
+                       Match(n, [("0", ctx.rais(".generatorExit", e_exit)), (f"{n2} + 1", ctx.end(e_go))]))
+        return self.ev(y.value, env, ky)
 
     # -- whole method
     def translate(self):
@@ -1250,10 +1391,16 @@ class Fn:
         self.resolve_ret()
         sig = "".join(f" ({nm} : {lean_ty(ty)})" for _, ty, nm in self.params)
         lines = [f"/-- `{self.cls.name}.{self.fn.name}` (src/asynkit/tools.py:{self.fn.lineno}) -/",
-                 f"def {lean_name} (s : PQ π){sig} : Except Exc ({lean_ty(self.ret_ty)}) × PQ π :="]
+                 f"def {lean_name} {BINDERS} (s : PQ π){sig} : Except Exc ({lean_ty(self.ret_ty)}) × PQ π :="]
         lines += node.lines("  ")
         self.info = {"lean": lean_name, "params": [(n, t) for n, t, _ in self.params], "ret": self.ret_ty, "gen": False}
-        return "\n".join(lines)
+        return self.aux_text() + "\n".join(lines)
+
+    def aux_text(self):
+        out = []
+        for header, node in self.aux:
+            out += [header] + node.lines("  ") + [""]
+        return "\n".join(out) + ("\n" if out else "")
 
     def init_text(self, lean_name, env):
         """`__init__`: every assignment must be `self.<field> = <constant>`; the result is the
@@ -1281,12 +1428,50 @@ class Fn:
             raise Unsupported("__init__ does not initialise every modelled field")
         self.info = {"lean": lean_name, "params": [], "ret": "pq", "gen": False}
         return (f"/-- `{self.cls.name}.__init__` (src/asynkit/tools.py:{self.fn.lineno}) -/\n"
-                f"def {lean_name} : PQ π :=\n  {{ " + ", ".join(f"{k} := {v}" for k, v in vals.items()) + " }")
+                f"def {lean_name} {{π : Type}} : PQ π :=\n  {{ " + ", ".join(f"{k} := {v}" for k, v in vals.items()) + " }")
 
 
 class GenFn(Fn):
+    """a generator method, translated for the driver `k × next()` (stopping at StopIteration or an
+    exception), then `close()`:  `def m … (k : Nat) : GenRes Y × PQ π`.
+
+    `k = 0`: `close()` of a generator that never started runs nothing.  Otherwise the body runs
+    with `n` = the number of `next()` calls still to come and `out` = the values yielded so far;
+    `yield v` appends `v` and, when `n = 0`, raises GeneratorExit at that point (the `close()`),
+    else goes on with `n - 1`.  Falling off the end / `return` is StopIteration: the driver stops.
+    GeneratorExit leaving the body is swallowed by `close()`; any other exception is reported in
+    `GenRes.exc` (it propagates out of `next()`)."""
+
     def method_text(self, lean_name):
-        raise Unsupported("generators: not yet")
+        env = self.translate()
+        env.gen = ("n0", "out0")
+
+        def res(e, exc):
+            return f"(⟨{e.gen[1]}, {exc}⟩, {e.objs[self.selfname]})"
+
+        def g_ret(v, e):
+            if v is not None and v.ty != "none":
+                raise Unsupported("return with a value in a generator")
+            return Final(self, self.depth, lambda: res(e, "none"), "aux")
+        ctx = Ctx(end=lambda e: Final(self, self.depth, lambda: res(e, "none"), "aux"),
+                  ret=g_ret,
+                  rais=lambda exc, e: Final(self, self.depth, lambda: res(e, f"PyRt.escaped {exc}"), "aux"),
+                  yld=True)
+        self.cur_rais = ctx.rais
+        node = self.blk(body_no_doc(self.fn), env, ctx)
+        if self.yield_ty is None:
+            raise Unsupported("generator without a translatable yield")
+        sig = "".join(f" ({nm} : {lean_ty(ty)})" for _, ty, nm in self.params)
+        rty = f"PyRt.GenRes (⟪Y⟫) × PQ π"
+        lines = [f"/-- `{self.cls.name}.{self.fn.name}` (src/asynkit/tools.py:{self.fn.lineno}), a generator, driven by",
+                 "    `k` calls of `next()` and then `close()` -/",
+                 f"def {lean_name} {BINDERS} (s : PQ π){sig} (k : Nat) : {rty} :=",
+                 "  match k with", "  | 0 => (⟨[], none⟩, s)", "  | n0 + 1 =>",
+                 "    let out0 : List (⟪Y⟫) := []"]
+        lines += node.lines("    ")
+        self.info = {"lean": lean_name, "params": [(n, t) for n, t, _ in self.params], "ret": None, "gen": True}
+        text = self.aux_text() + "\n".join(lines)
+        return text.replace("⟪R⟫", rty).replace("⟪Y⟫", lean_ty(self.yield_ty))
 
 
 # ---- the class --------------------------------------------------------------------------------
@@ -1319,7 +1504,7 @@ def generate(src: Path) -> dict:
            "import Asynkit.Model.PQ", "import Asynkit.Model.PyRt", "import Asynkit.Gen.PriEntry",
            "set_option linter.unusedVariables false",
            "namespace Asynkit.Gen.PQ", "open Asynkit Asynkit.PyRt",
-           "variable {π : Type} (H : HeapLib (Entry π)) (plt : π → π → Bool)", ""]
+           ""]
     problems = []
     if cls is None:
         if strict:
